@@ -150,10 +150,15 @@ impl Server {
     /// restart by `Lab::selfcheck` (identical outcomes for every alphabet
     /// request) and by confirming every violation on a freshly started server.
     pub(crate) async fn reset(&mut self, root: &str, snapshot: &Snapshot, pool_names: &[(String, String)]) -> Result<(), String> {
+        let t = std::time::Instant::now();
+        let prof = std::env::var("VERIF_PROFILE").is_ok();
+        macro_rules! lap { ($n:expr) => { if prof { eprintln!("  reset:{} {:?}", $n, t.elapsed()); } } }
         for (o, n) in pool_names {
             let _ = self.db_pool.remove_db(o, n).await;
         }
+        lap!("pool-emptied");
         snapshot.restore(root);
+        lap!("files-restored");
         let (tx, _rx) = broadcast::channel::<()>(1);
         let fresh_db = crate::server_db::new(&self.config, tx.subscribe()).await.map_err(|e| format!("server_db::new: {}", e.description))?;
         {
@@ -163,6 +168,7 @@ impl Server {
         }
         let _ = tx.send(()); // ends the clean-up task of the temporary handle (it holds the old Db)
         drop(fresh_db);
+        lap!("server-db");
         let fresh_log = crate::cluster_log::new(&self.config).await.map_err(|e| format!("cluster_log::new: {}", e.description))?;
         {
             let mut a = self.cluster_log.0.write().await;
@@ -170,14 +176,17 @@ impl Server {
             std::mem::swap(&mut *a, &mut *b);
         }
         drop(fresh_log);
+        lap!("cluster-log");
         for d in self.server_db.dbs().await.map_err(|e| format!("dbs: {}", e.description))? {
             self.db_pool.add_db(&d.owner, &d.db, d.db_type).await.map_err(|e| format!("pool add {}/{}: {}", d.owner, d.db, e.description))?;
         }
+        lap!("pool-filled");
         let fresh = crate::cluster::new(&self.config, &self.server_db, &self.cluster_log, &self.db_pool).await.map_err(|e| format!("cluster::new: {}", e.description))?;
         let fresh = Arc::try_unwrap(fresh).map_err(|_| "fresh cluster is shared".to_string())?;
         let raft = Arc::try_unwrap(fresh.raft).map_err(|_| "fresh raft is shared".to_string())?.into_inner();
         *self.cluster.raft.write().await = raft;
         tokio::task::yield_now().await;
+        lap!("cluster");
         Ok(())
     }
 
